@@ -43,8 +43,8 @@ func (c *c20Exec) Output(ctx context.Context, path string, command plugin.Comman
 }
 
 // versions in semver precedence order; rank[i] gives the precedence class (equal rank = equal precedence)
-var c20Versions = []string{"0.9.0", "1.0.0-alpha", "1.0.0", "1.0.0+b", "1.1.0", "1.x", ""}
-var c20Rank = []int{0, 1, 2, 2, 3, -1, -2} // -1 invalid semver, -2 empty (metadata invalid)
+var c20Versions = []string{"0.9.0", "1.0.0-alpha", "1.0.0", "1.0.0+b", "1.1.0", "1.x", "", "1.1", "2", "v1.2.0"}
+var c20Rank = []int{0, 1, 2, 2, 3, -1, -2, -1, -1, -1} // -1 invalid semver, -2 empty (metadata invalid)
 
 func c20Meta(name string, version int) string {
 	return `{"name":"` + name + `","description":"d","version":"` + c20Versions[version] + `","url":"u","supportedContractVersions":["1.0"],"capabilities":["SIGNATURE_GENERATOR.RAW"]}`
